@@ -71,6 +71,12 @@ func (w *textWriter) WriteNull() error {
 
 // WriteNullType writes a typed null.
 func (w *textWriter) WriteNullType(t Type) error {
+	if int(t) >= len(textNulls) {
+		if w.err == nil {
+			w.err = &UsageError{"Writer.WriteNullType", fmt.Sprintf("%d is not an Ion type", uint8(t))}
+		}
+		return w.err
+	}
 	return w.writeValue("Writer.WriteNullType", textNulls[t], writeRawString)
 }
 
